@@ -754,10 +754,56 @@ UNHASHED_WITNESSES = [
 ]
 
 
+def unlock_escapes(ctx, run, suite):
+    """a protected key whose unlock scope is LEFT BY AN EXCEPTION (the policy itself refusing an operation inside the scope, or an
+    unrelated error) is locked again: every private operation afterwards is refused for is_unlocked, on the key and on its subkeys"""
+    w = run.w
+    for how in ('policy-refusal-inside', 'value-error-inside', 'normal-exit'):
+        for subs in ([], [[[SIGN, 0]]]):
+            k = w.assemble('locked', [[0, [[ENCC, 0]]]], subs)
+            case = {'suite': suite, 'how': how, 'subs': len(subs)}
+            inside = None
+            try:
+                with warnings.catch_warnings():
+                    warnings.simplefilter('ignore')
+                    with k.unlock('pw'):
+                        inside = bool(k.is_unlocked)
+                        if how == 'policy-refusal-inside' and not subs:
+                            k.sign('refused: the primary may only encrypt')       # PGPError out of the scope
+                        elif how != 'normal-exit':
+                            raise ValueError('unrelated error inside the scope')
+            except Exception:
+                pass
+            comps = [k] + list(k.subkeys.values())
+            state = [bool(c.is_unlocked) for c in comps]
+            outs = []
+            for op in ('sign', 'certify', 'decrypt'):
+                outs.append(do_op(w, k, op, None)[0])
+            sub_out = [classify_call(lambda c=c: c.sign('by the subkey directly')) for c in comps[1:]]
+            ctx.case(suite, (how, len(subs)), sample=dict(case, unlocked_after=state, outcomes=outs + sub_out))
+            if inside is not True:
+                ctx.fail(suite, 'harness: the key was not unlocked inside the scope', dict(case, inside=inside)); continue
+            if any(state):
+                ctx.fail(suite, 'key material is still unlocked after the unlock scope was left (%s)' % how, dict(case, unlocked_after=state))
+            if any(o.startswith('run') for o in outs + sub_out):
+                ctx.fail(suite, 'a private operation was performed after the unlock scope was left (%s)' % how, dict(case, outcomes=outs + sub_out))
+
+
+def classify_call(fn):
+    try:
+        with warnings.catch_warnings():
+            warnings.simplefilter('ignore')
+            fn()
+        return 'run'
+    except Exception as ex:
+        return classify(ex)
+
+
 def _run(ctx, pgpy, d):
     w = World(pgpy, ctx.rng)
     run = Runner(ctx, w, d)
     precondition_forms(ctx, run, 'forms')
+    unlock_escapes(ctx, run, 'unlock-escape')
     # F7 regression: Authentication binding, later re-bound for signing -> the subkey signs; the model of the old code refuses
     k = w.assemble('private', F7_WITNESS['uids'], F7_WITNESS['subs'])
     out = run.one('regress-F7', k, 'private', True, 'sign', None, dict(F7_WITNESS, suite='regress-F7', op='sign'), flags=[CERTIFY | AUTH, SIGN])
